@@ -4,7 +4,7 @@ namespace Ea.Gen
 def loopBound : Nat := 99999
 def pastToleranceNs : Int := 100000000
 def jitterEpsNs : Int := 100000
-def afterTries : Nat := 3
+def afterTries : Nat := 121
 def sunTries : Nat := 366
 def sunCacheMax : Nat := 64
 def sunCacheEvict : Nat := 10
